@@ -144,7 +144,18 @@ def module_registry(m):
     if len(stmts) != 1:
         raise AnalysisError(
             f'{m.rel()}: get_mutators() does more than return a literal')
-    return fold_str_dict(rets[0].value, f'{m.rel()}:get_mutators')
+    v = rets[0].value
+    if isinstance(v, ast.Name) and len(m.globals.get(v.id, [])) == 1 and \
+            isinstance(m.globals[v.id][0], ast.Dict):
+        # one dict object built at import time and handed out to every
+        # caller (C14.R9 then demands that nobody modifies it)
+        SHARED_REGISTRIES.add(m.name)
+        v = m.globals[v.id][0]
+    return fold_str_dict(v, f'{m.rel()}:get_mutators')
+
+
+# modules whose get_mutators() returns a shared module-level dict
+SHARED_REGISTRIES = set()
 
 
 def registry(prog):
